@@ -78,20 +78,48 @@ func c12a(c *Ctx, a *absVariant) {
 			r.Ok("C12-a", "T."+fn+":reports-every-outcome", vn, w, fmt.Sprintf("%d abstract paths, one failAt each with matching polarity, entry position, own label", nPaths))
 		}
 	}
-	// who calls failAt
-	var others []string
-	for _, fd := range a.V.Funcs() {
-		n := fd.Name.Name
-		if n == "parseAnyMatcher" || n == "parseLitMatcher" || n == "parseCharClassMatcher" {
-			continue
-		}
-		for _, ce := range callsIn(fd) {
-			if callSel(ce) == "failAt" {
-				others = append(others, n)
+	// who calls failAt: the terminal matchers, or helpers that are themselves called only from them
+	terminals := map[string]bool{"parseAnyMatcher": true, "parseLitMatcher": true, "parseCharClassMatcher": true}
+	callersOf := func(name string) []string {
+		var out []string
+		for _, fd := range a.V.Funcs() {
+			if fd.Body == nil {
+				continue
+			}
+			for _, ce := range callsIn(fd.Body) {
+				if callSel(ce) == name {
+					out = append(out, fd.Name.Name)
+				}
 			}
 		}
+		return out
 	}
-	r.Check(len(others) == 0, "C12-a2", "T.failAt:callers", vn, "builder/static_code.go", "only the terminal matchers", "failAt also called from "+strings.Join(others, ","))
+	var others []string
+	var visit func(fn string, depth int) bool
+	visit = func(fn string, depth int) bool {
+		if terminals[fn] {
+			return true
+		}
+		if depth > 3 {
+			return false
+		}
+		cs := callersOf(fn)
+		if len(cs) == 0 {
+			return false
+		}
+		for _, c2 := range cs {
+			if !visit(c2, depth+1) {
+				return false
+			}
+		}
+		return true
+	}
+	for _, fn := range callersOf("failAt") {
+		if !visit(fn, 0) {
+			others = append(others, fn)
+		}
+	}
+	r.Check(len(others) == 0, "C12-a2", "T.failAt:callers", vn, "builder/static_code.go", "only the terminal matchers (directly or through helpers used by them alone)", "failAt also reachable from "+strings.Join(others, ","))
 }
 
 func c12b(c *Ctx, a *absVariant) {
